@@ -23,7 +23,7 @@ def main(tier):
     rep = common.Report(PID, tier)
     n = 600 if tier == "quick" else 5000
     seed = common.seed() + 700
-    items = [(seed, i, ("core", "control", "validity", "rewrite"), METHODS, {"ragged_collect": True}) for i in range(n)]
+    items = [(seed, i, ("core", "control", "validity", "rewrite"), METHODS, {"ragged_collect": True, "nomatch_p": 0.3}) for i in range(n)]
     results = common.pmap(runfam._work, items, initializer=scratch.enter_scratch)
     cases, infos, all_traces, oom = [], {}, [], 0
     for idx, lst in enumerate(results):
